@@ -20,6 +20,9 @@ def run(chk):
     r04b(chk)
     r04c(chk, 'R04.c')
     r04d(chk)
+    from .c09 import r09c
+
+    r09c(chk, 'R04.e')
 
 
 def _skip_calls(fn):
